@@ -124,6 +124,10 @@ def _table(tbl, dtype, fill_map=None):
     return a.astype(_np_dtype(dtype))
 
 
+class NotRepresentable(Exception):
+    """The trusted writer cannot hold this source as described (never a verdict)."""
+
+
 # ----------------------------------------------------------------------------- per-route sources
 def _ugrid_ds(case, mesh):
     import xarray as xr
@@ -145,7 +149,8 @@ def _ugrid_ds(case, mesh):
         attrs["start_index"] = np.int32(src["attrs"]["start_index"])
     fv = None
     if "fill_value" in src["attrs"]:
-        fv = _np_dtype(src["dtype"])(src["attrs"]["fill_value"])
+        fvi = src["attrs"]["fill_value"]
+        fv = _np_dtype(src["dtype"])(hux.consts()[1] if fvi == BIGFILL else fvi)
         attrs["_FillValue"] = fv
     ds = xr.Dataset()
     ds[N["lon"]] = xr.DataArray(lon, dims=[N["dn"]], attrs={"standard_name": "longitude", "units": "degrees_east"})
@@ -168,10 +173,11 @@ def _ugrid_ds(case, mesh):
         if declare or role == "face_node_connectivity":
             topo[role] = N[key]
 
-    conn("fn", "face_node_connectivity", src["face_node"], [N["df"], N["dw"]])
+    conn("fn", "face_node_connectivity", src["face_node"], [N["df"], N["dw"]] if src["face_axis"] == 1 else [N["dw"], N["df"]])
     if src["edge_node"]:
         conn("en", "edge_node_connectivity", src["edge_node"], [N["de"], N["d2"]])
-        conn("fe", "face_edge_connectivity", src["face_edge"], [N["df"], N["dw"]])
+        if src["face_edge"]:
+            conn("fe", "face_edge_connectivity", src["face_edge"], [N["df"], N["dw"]])
         if declare and not std:
             topo["edge_dimension"] = N["de"]
     if src["edge_face"]:
@@ -389,6 +395,17 @@ def _geo_file(case, mesh, path_base):
     os.makedirs(d, exist_ok=True)
     path = os.path.join(d, "faces.shp")
     gpd.GeoDataFrame({"k": list(range(len(geoms)))}, geometry=geoms, crs="EPSG:4326").to_file(path)
+    # A shapefile has no MultiPolygon: parts become rings of one record and the reader of the format
+    # re-derives shells and holes from the planar ring geometry.  If the file the (trusted) writer produced
+    # does not hold our parts as separate shells, it is not the source the case describes.
+    back = gpd.read_file(path)
+    parts = [len(x.geoms) if x.geom_type == "MultiPolygon" else 1 for x in back.geometry]
+    holes = sum(len(p.interiors) for x in back.geometry for p in (x.geoms if x.geom_type == "MultiPolygon" else [x]))
+    if parts != [len(f["rings"]) for f in src["features"]] or holes:
+        import shutil
+
+        shutil.rmtree(d, ignore_errors=True)
+        raise NotRepresentable("shapefile writer restructured the parts: %s holes=%d" % (parts, holes))
     return path
 
 
@@ -427,11 +444,19 @@ def _topology_kwargs(case, mesh):
     )
     if src["edge_node"]:
         kw["edge_node_connectivity"] = _table(src["edge_node"], src["dtype"])
-        kw["face_edge_connectivity"] = _table(src["face_edge"], src["dtype"])
+        if src["face_edge"]:
+            kw["face_edge_connectivity"] = _table(src["face_edge"], src["dtype"])
     return kw
 
 
 # ----------------------------------------------------------------------------- open
+def _quiet():
+    import contextlib
+    import io
+
+    return contextlib.redirect_stdout(io.StringIO())
+
+
 def open_case(case, mesh, work, disk):
     """Materialise the source of `case` and open it through the public API; returns (grid, how)."""
     ux = hux.import_ux()
@@ -470,7 +495,8 @@ def open_case(case, mesh, work, disk):
     if route == "geo":
         path = _geo_file(case, mesh, base)
         try:
-            return ux.Grid.from_file(path), "from_file"
+            with _quiet():  # the reader prints CRS information
+                return ux.Grid.from_file(path), "from_file"
         finally:
             import shutil
 
@@ -542,6 +568,9 @@ def project(g, case, mesh):
         "node_face": "node_face_connectivity",
         "face_face": "face_face_connectivity",
     }
+    if "derive_fe" in car:
+        # derive face_edge first: the edge table read afterwards must still be the carried one
+        got["face_edge_derived"], dt["face_edge_derived"], fl["face_edge_derived"] = hux.table(g.face_edge_connectivity)
     for k in ("edge_node", "face_edge", "edge_face", "node_face", "face_face"):
         if k in car:
             # carried over means: present in what the reader produced (a later derivation is a different thing)
@@ -575,6 +604,8 @@ def run_case(arg):
         g, how = open_case(case, mesh, work, disk)
         rec["how"] = how
         rec["got"] = project(g, case, mesh)
+    except NotRepresentable as e:
+        rec["skip"] = str(e)[:200]
     except Exception as e:  # the property promises a Grid for every well-formed source
         import traceback
 
@@ -589,16 +620,53 @@ def run_case(arg):
 
 
 # ----------------------------------------------------------------------------- sample files (code -> spec)
+def declared_faces(path, kw):
+    """How many elements the file itself declares - read from its own metadata, no uxarray involved."""
+    if kw.get("geo"):
+        import geopandas as gpd
+
+        gdf = gpd.read_file(path)
+        return int(sum(len(x.geoms) if x.geom_type == "MultiPolygon" else 1 for x in gdf.geometry))
+    import xarray as xr
+
+    with xr.open_dataset(path, decode_times=False) as ds:
+        sz = dict(ds.sizes)
+        topo = [v for v in ds.variables.values() if v.attrs.get("cf_role") == "mesh_topology"]
+        if topo and "face_node_connectivity" in topo[0].attrs:
+            t = topo[0].attrs
+            if "face_dimension" in t:
+                return int(sz[t["face_dimension"]])
+            return int(ds[t["face_node_connectivity"]].shape[0])
+        if "verticesOnCell" in ds:
+            return int(sz["nVertices"] if kw.get("use_dual") else sz["nCells"])
+        if "elementCount" in sz:
+            return int(sz["elementCount"])
+        if "grid_size" in sz:
+            return int(sz["grid_size"])
+        if "num_el_blk" in sz:
+            return int(sum(n for d, n in sz.items() if d.startswith("num_el_in_blk")))
+        if "nf" in sz and "Ydim" in sz:
+            return int(sz["nf"] * sz["Ydim"] * sz["Xdim"])
+    return None
+
+
 def file_record(arg):
     """Open one sample file; standard-form projection only (no expected faces are known)."""
     fid, path, kw = arg
     ux = hux.import_ux()
     rec = {"kind": "file", "id": fid}
     try:
+        n = declared_faces(path, kw)
+        if n is not None:
+            rec["declared_n_face"] = n
+    except Exception as e:
+        rec["declared_error"] = str(e)[:200]
+    try:
         if kw.get("geo"):
-            g = ux.Grid.from_file(path)
+            with _quiet():
+                g = ux.Grid.from_file(path)
         else:
-            g = ux.open_grid(path, **{k: v for k, v in kw.items() if k != "geo"})
+            g = ux.open_grid(path, **{k: v for k, v in kw.items() if k in ("use_dual",)})
         rows, d, f = hux.table(g.face_node_connectivity)
         got = {"n_face": int(g.n_face), "n_node": int(g.n_node), "tbl": rows, "dtype_ok": {"face_node": d}, "fill_ok": {"face_node": f}}
         lon_ok = _range_ok(g.node_lon.values, -180.0, 180.0)
